@@ -33,12 +33,18 @@ def w_mandy(ctx, rng, idx):
     N_cm, N_fm = p ** d, (d + 1) ** p
     kind = int(rng.integers(0, 3))
     m = [int(rng.integers(1, 4)), int(rng.integers(4, 9)), int(rng.integers(9, 16))][kind]
-    x = rng.uniform(-1.5, 1.5, size=(d, m))
+    x = gen.data_matrix(rng, (d, m))
     dup = rng.random() < 0.25 and m > 1
     if dup:
         x[:, -1] = x[:, 0]  # duplicated snapshot: rank-deficient transformed data
     y = rng.standard_normal((d, m))
     thr = 1e-10 if (dup or rng.random() < 0.4) else 0.0
+    with probe.oracle():  # data on common zeros of the basis functions: exactly-zero transformed tensor (0/0 in every relative cut)
+        zero_cm = not any(np.any(c) for c in [dense(tr.coordinate_major(x, phi))])
+        zero_fm = not np.any(dense(tr.function_major(x, phi, add_one=False)))
+    if zero_cm or zero_fm:
+        ctx.skip('mandy_transformed_data_tensor_is_zero')
+        return
     ctx.describe({'op': 'mandy_cm/fm', 'd': d, 'm': m, 'functions': [n for (n, _) in sel], 'threshold': thr, 'duplicate_snapshot': dup})
     call('regression.mandy_cm', reg.mandy_cm, x, y, phi, prop=P, threshold=thr)
     call('regression.mandy_fm', reg.mandy_fm, x, y, phi, prop=P, threshold=thr, add_one=bool(rng.integers(0, 2)))
@@ -48,7 +54,7 @@ def w_mandy(ctx, rng, idx):
 
 def w_kb(ctx, rng, idx):
     d, m = int(rng.integers(1, 4)), int(rng.integers(1, 8))
-    x = rng.uniform(-1.5, 1.5, size=(d, m))
+    x = gen.data_matrix(rng, (d, m))
     dup = rng.random() < 0.25 and m > 1
     if dup:
         x[:, -1] = x[:, 0]
@@ -74,7 +80,7 @@ def arr_residual(x, y, bl, sols):
 
 def w_arr(ctx, rng, idx):
     d, m = int(rng.integers(1, 4)), int(rng.integers(2, 10))
-    x = rng.uniform(-1.5, 1.5, size=(d, m))
+    x = gen.data_matrix(rng, (d, m))
     bl = rand_basis(rng, d)
     while len(bl) < 2:
         bl = rand_basis(rng, d)
